@@ -216,3 +216,29 @@ MANIFEST_TEXT["C12"] = dict(
          "free-running threads; real memory-model behaviour is assumed.",
     note=_BASE_NOTE + "Environment modelled, not verified: the `tracing` front end (one subscriber call per span operation, registration before first use, enabled before new_span/event, child_of(None)=new_root) and AtomicU32::fetch_add as one atomic step.",
     technique="Lean 4 proof (lock-step simulation of subscribers, invariants over programs, interleaving model) + differential correspondence")
+
+PROPS["C01"] = dict(suites=[("prog", {Q: 400, T: 30000})], rule=_PROG_RULE)
+MANIFEST_TEXT["C01"] = dict(
+    text="Theorems (all well-formed single-threaded programs, any length, any arena history): every event of the sender's stream is "
+         "accepted (C01_accepts); call for call the host receives through sender -> receiver what it receives natively, with values "
+         "widened to the documented value model, clones/drops folded into the single close at handle count zero, call sites compared by "
+         "content, and explicit roots arriving as contextual (C01_log_simulation, unconditional); hence the traces (logs with contextual "
+         "parents resolved against the host's span stack) are equal for programs that create explicit-root spans/events only while no "
+         "span is entered (C01_partial). The full statement is false of the code — the wire format cannot express an explicit root "
+         "(C01_counterexample, known finding K1, reported by the check as KNOWN-FINDING with the weakened comparison root->contextual). "
+         "Tied to the code by running every program natively and tunnelled (real sender, serde_json, real receiver) on two StrictHosts.",
+    note=_RECV_NOTE + "Also environment: the `tracing` front end at subscriber-call level (enabled before new_span/event, registration before first use, child_of(None)=new_root).",
+    technique="Lean 4 proof (simulation native host vs sender∘receiver over the program's call log) + differential correspondence (native vs tunnelled)")
+PROPS["C13"] = dict(suites=[("prog", {Q: 400, T: 30000})], rule=_PROG_RULE + "; every case runs under a host level filter (0..4) on both the native and the tunnelled host")
+PROPS["C09"] = dict(suites=[("receiver", {Q: 150, T: 5000})],
+    rule="receiver suite, C09 cases: a base description (0/3/8/64 fields) and 11 variants differing in exactly one attribute (kind, level, "
+         "name incl. empty, target, module path presence, file incl. Unicode, line, field added / order / one name), announced "
+         "repeatedly under fresh and reused ids across persist keep/lose/new-host/discard cycles, each used once so that the metadata "
+         "object shows; interned-string and metadata counts read through the cfg hook; non-trivial = a cut with an alive span or >= 2 "
+         "rounds (every case has >= 2 rounds); distinct by input text")
+PROPS["C10"] = dict(suites=[("arenaconc", {Q: 60, T: 2000})],
+    rule="arenaconc suite: all interleavings (at lock-acquisition granularity, forced through the cfg-guarded yield point between the "
+         "read-locked scan and the write-locked insertion) of 2 threads (quick) / 2-3 threads (thorough) x 1-2 announcements for equal / "
+         "different / mixed work shapes; random work (2-4 threads x 1-3 announcements from a pool of 3 descriptions) under random, "
+         "possibly truncated schedules; free-running stress with 2-16 threads; non-trivial = a schedule in which steps of different "
+         "threads alternate; distinct by input text")
